@@ -163,8 +163,23 @@ def eval_cases(scratch, tag, header, case_type, cases, evals, shard=1500, timeou
         name, text = texts[k]
         return k, run_script(scratch, name, text, timeout=timeout, extra_q=extra_q)
 
+    # how many coqc processes at once: a shard can need more than 1 GB, and several checks may run side by side
+    try:
+        with open("/proc/meminfo") as f:
+            avail_gb = [int(l.split()[1]) for l in f if l.startswith("MemAvailable")][0] // (1024 * 1024)
+        jobs = max(1, min(jobs, avail_gb // 3))
+    except Exception:
+        pass
     with concurrent.futures.ThreadPoolExecutor(max_workers=jobs) as ex:
-        for k, (rc, out, err, secs) in ex.map(one, range(len(texts))):
+        done = list(ex.map(one, range(len(texts))))
+    # a shard whose coqc was killed from outside (out of memory, rc < 0 or 137) or timed out under load says nothing
+    # about the model: evaluate it once more, alone
+    for i, (k, (rc, out, err, secs)) in enumerate(done):
+        if rc != 0 and (rc < 0 or rc in (137, 124) or "timeout after" in err or "Out of memory" in err
+                        or "Stack overflow" in err):
+            done[i] = one(k)
+    if True:
+        for k, (rc, out, err, secs) in done:
             if rc != 0:
                 raise CoqError("case shard %s does not evaluate" % texts[k][0], (out + err)[-4000:])
             lists = parse_pair_lists(out)
